@@ -24,6 +24,7 @@ from . import ir, linear as L
 from .build import AnalysisBroken
 
 CURSOR_SUFFIX = ("->head", "->high", "->mapped")
+ALIAS = {"channel": "self", "channel_reader": "reader"}   # canonical names of the two object parameters
 # unsigned subtractions the linear domain proves non-negative on the reference
 # tree; if one of these (same function, same text) stops being provable it is
 # reported.  Other subtractions are only listed in the evidence notes.
@@ -77,9 +78,54 @@ def some(st, *conj_lists):
     return False
 
 
+def _A(prog, *a, **kw):
+    an = L.Analysis(prog, *a, **kw)
+    an.param_alias = ALIAS
+    return an
+
+
+def _roles(prog):
+    """Local variable / parameter names by role (so that renaming them changes nothing):
+    write_map: the local that receives next_write's begin offset, the size
+    parameter; read_map: the two locals the returned slice is built from;
+    read_unmap: the local holding the mapped length, the consumed parameter."""
+    r = {}
+    g = prog.func("channel_write_map")
+    nw = prog.func("next_write")
+    outs = [k for k, p in enumerate(nw.params) if p.get("pd") and not p.get("r") and ("long" in p["t"] or "size_t" in p["t"])]
+    for b, i, s in g.all_stmts():
+        for c in ir.calls_in(s):
+            if c.get("fn") == "next_write" and outs and outs[0] < len(c["args"]):
+                a = ir.strip(c["args"][outs[0]])
+                if isinstance(a, dict) and a.get("k") == "addr" and ir.strip(a["e"]).get("k") == "var":
+                    r["wm_beg"] = ir.strip(a["e"])["n"]
+    sz = [p for p in g.params if not p.get("pd") and not p.get("r")]
+    r["wm_nbytes"] = sz[0]["n"] if sz else "nbytes"
+    h = prog.func("channel_read_map")
+    for b, i, s in h.all_stmts():
+        if s.get("k") == "ret" and isinstance(ir.strip(s.get("e")), dict) and ir.strip(s["e"]).get("k") == "init":
+            flds = {e["f"]: ir.strip(e["v"]) for e in ir.strip(s["e"]).get("elts", []) if "f" in e}
+            bg, en = flds.get("beg"), flds.get("end")
+            if isinstance(bg, dict) and bg.get("k") == "var":
+                r["rm_out"] = bg["n"]
+            if isinstance(en, dict) and en.get("k") == "bin" and en.get("op") == "+":
+                for x in (ir.strip(en["l"]), ir.strip(en["r"])):
+                    if isinstance(x, dict) and x.get("k") == "var" and x["n"] != r.get("rm_out"):
+                        r["rm_nbytes"] = x["n"]
+    u = prog.func("channel_read_unmap")
+    for b, i, s in u.all_stmts():
+        for lv, op, rhs, w in ir.writes_of(s):
+            if lv.get("k") == "var" and isinstance(rhs, dict) and any(c.get("fn") == "get_available_byte_count" for c in ir.calls_in(rhs)):
+                r["ru_length"] = lv["n"]
+    r.setdefault("wm_beg", "beg"); r.setdefault("rm_out", "out"); r.setdefault("rm_nbytes", "nbytes"); r.setdefault("ru_length", "length")
+    return r
+
+
 def rule_linear(prog, res, rule="R-LIN"):
+    ROLE = _roles(prog)
     col = Collector()
-    an = L.Analysis(prog, invariant=invariant, on_store=col.on_store, on_sub=col.on_sub)
+    an = _A(prog, invariant=invariant, on_store=col.on_store, on_sub=col.on_sub)
+    an.param_alias = ALIAS
     col.an = an
     def sec_grant():
         # ---- GRANT ------------------------------------------------------------
@@ -150,15 +196,15 @@ def rule_linear(prog, res, rule="R-LIN"):
         for f_, e, val, st in col.maps:
             if f_.name != g.name:
                 continue
-            begv = st.cells.get("channel_write_map:beg")
-            nv = an.read(st, "channel_write_map:nbytes")
+            begv = st.cells.get("channel_write_map:%s" % ROLE["wm_beg"])
+            nv = an.read(st, "channel_write_map:%s" % ROLE["wm_nbytes"])
             if begv is None or not st.entails_eq(L.lsub(val, L.ladd(begv, nv))):
                 okm = False
                 why = "mapped = %s but the region handed out is [beg, beg + nbytes) with beg = %s" % (_pretty(L.lshow(val)), _pretty(L.lshow(begv or {})))
         for rv, st in rets:
             if rv is None or (L.is_const(rv) and rv.get(L.ONE, 0) == 0):
                 continue
-            begv = st.cells.get("channel_write_map:beg")
+            begv = st.cells.get("channel_write_map:%s" % ROLE["wm_beg"])
             base = L.lvar("ptr:self->data")
             if begv is None or not st.entails_eq(L.lsub(rv, L.ladd(base, begv))):
                 okm = False
@@ -187,8 +233,8 @@ def rule_linear(prog, res, rule="R-LIN"):
         nonempty = 0
         badr = None
         for rv, st in rets:
-            nb = st.cells.get("channel_read_map:nbytes")
-            out = st.cells.get("channel_read_map:out")
+            nb = st.cells.get("channel_read_map:%s" % ROLE["rm_nbytes"])
+            out = st.cells.get("channel_read_map:%s" % ROLE["rm_out"])
             if nb is None or out is None:
                 continue
             if st.entails_eq(nb):
@@ -287,7 +333,7 @@ def rule_cursor_cmp(prog, res, rule="R-LIN"):
     res.touched(f)
     if len(f.params) != 4:
         raise AnalysisBroken("cursor_cmp: expected (major_a, minor_a, major_b, minor_b)")
-    an = L.Analysis(prog)
+    an = _A(prog)
     rets = an.run(f, L.State())
     bad = None
     for rv, st in rets:
@@ -328,7 +374,7 @@ def rule_reader_min(prog, res, rule="R-LIN"):
     pos_p, lap_p, n_p = f.params
     # roles of the cells written in the loop body
     keys = {}
-    an0 = L.Analysis(prog)
+    an0 = _A(prog)
     st0 = L.State()
     for b in body:
         for s in f.blocks[b].stmts:
@@ -361,7 +407,7 @@ def rule_reader_min(prog, res, rule="R-LIN"):
                  "reader_min no longer updates the candidate (position, lap, index) together from element i: the index returned does not belong to the smallest cursor")
         return
     rec = {"pre": [], "entry": [], "back": []}
-    an = L.Analysis(prog,
+    an = _A(prog,
                     on_loop_pre=lambda f_, h, s: rec["pre"].append(s.copy()) if f_ is f else None,
                     on_loop_entry=lambda f_, h, s: rec["entry"].append(s) if f_ is f else None,
                     on_backedge=lambda f_, h, s: rec["back"].append(s.copy()) if f_ is f else None)
@@ -422,7 +468,7 @@ def rule_reader_min(prog, res, rule="R-LIN"):
 
 def _reader_min_index_only(prog, res, f, head, body, keys, pos_p, lap_p, n_p, rule):
     rec = {"pre": [], "back": []}
-    an = L.Analysis(prog)
+    an = _A(prog)
 
     def entry(f_, h, s):
         if f_ is f:
@@ -487,7 +533,7 @@ def rule_available(prog, res, rule="R-LIN"):
     res.touched(f)
     if len(f.params) != 4:
         raise AnalysisBroken("get_available_byte_count: parameters changed")
-    an = L.Analysis(prog)
+    an = _A(prog)
     rets = an.run(f, L.State())
     bad = None
     for rv, st in rets:
@@ -528,6 +574,7 @@ def rule_reader_ops(prog, res, rule="R-LIN"):
     UNMAP the new hold cursor is (pos + consumed, lap) or the reader cursor,
           moved to (0, lap + 1) exactly when it reached high with the writer
           already in the next lap."""
+    ROLE = _roles(prog)
     mapped_v = dict(prog.enum_values("ChannelState") or []).get("ChannelState_Mapped")
     unmapped_v = dict(prog.enum_values("ChannelState") or []).get("ChannelState_Unmapped")
     err_v = dict(prog.enum_values("ChannelStatus") or []).get("Channel_Error")
@@ -560,7 +607,7 @@ def rule_reader_ops(prog, res, rule="R-LIN"):
             events["skip"].append((st.copy(), key))
         if f.name == "reader_initialize" and ("holds.pos[" in key or "holds.cycles[" in key):
             events["reg"].append(key)
-    an = L.Analysis(prog, invariant=invariant, on_store=on_store)
+    an = _A(prog, invariant=invariant, on_store=on_store)
     st0 = L.State()
     rets = an.run(h, st0)
     problems = []
@@ -591,7 +638,7 @@ def rule_reader_ops(prog, res, rule="R-LIN"):
     if not any(True for rv, st in rets):
         raise AnalysisBroken("channel_read_map: no return state")
     for rv, st in rets:
-        nb = st.cells.get("channel_read_map:nbytes")
+        nb = st.cells.get("channel_read_map:%s" % ROLE["rm_nbytes"])
         if nb is None:
             continue
         state0 = _init("reader->state")
@@ -615,7 +662,7 @@ def rule_reader_ops(prog, res, rule="R-LIN"):
     def on_store_u(f, e, key, val, st):
         if f is u and ("holds.pos[" in key or "holds.cycles[" in key):
             events_u["stores"].append((st.copy(), key))
-    an2 = L.Analysis(prog, invariant=invariant, on_store=on_store_u)
+    an2 = _A(prog, invariant=invariant, on_store=on_store_u)
     rets_u = an2.run(u, L.State())
     kp_un, kc_un = set(), set()
     for rv, st in rets_u:
@@ -630,7 +677,7 @@ def rule_reader_ops(prog, res, rule="R-LIN"):
         pos0, cyc0 = _init(kp), _init(kc)
         rpos, rcyc = an2.read(st, "reader->pos"), an2.read(st, "reader->cycle")
         c = _init("channel_read_unmap:%s" % u.params[2]["n"])
-        Lv = st.cells.get("channel_read_unmap:length")
+        Lv = st.cells.get("channel_read_unmap:%s" % ROLE["ru_length"])
         head = an2.read(st, "self->head")
         high = an2.read(st, "self->high")
         state1 = st.cells.get("reader->state", state0)
@@ -696,9 +743,10 @@ def rule_writer_ops(prog, res, rule="R-LIN"):
               head = beg); otherwise high and lap are unchanged;
        COMMIT channel_write_unmap: head = mapped when writes are accepted;
        ALL    the wrap-everybody loop visits every registered reader."""
+    ROLE = _roles(prog)
     g = prog.func("channel_write_map")
     res.touched(g)
-    an = L.Analysis(prog, invariant=invariant)
+    an = _A(prog, invariant=invariant)
     rets = an.run(g, L.State())
     problems = []
     nonnull = 0
@@ -709,7 +757,7 @@ def rule_writer_ops(prog, res, rule="R-LIN"):
         # the values the cursors had when the grant was computed: the symbols
         # created after the wait loop's havoc (highest version at that time
         # is what next_write read); head0 is the version next_write saw
-        beg = st.cells.get("channel_write_map:beg")
+        beg = st.cells.get("channel_write_map:%s" % ROLE["wm_beg"])
         head1, high1, cyc1 = an.read(st, "self->head"), an.read(st, "self->high"), an.read(st, "self->cycle")
         hv = st.ver.get("self->head", 1) - 1
         head0 = L.lvar("self->head#%d" % hv)
@@ -737,7 +785,7 @@ def rule_writer_ops(prog, res, rule="R-LIN"):
     # COMMIT
     wu = prog.func("channel_write_unmap")
     res.touched(wu)
-    an = L.Analysis(prog, invariant=invariant)
+    an = _A(prog, invariant=invariant)
     rets = an.run(wu, L.State())
     okc = bool(rets)
     for rv, st in rets:
@@ -764,7 +812,7 @@ def rule_writer_ops(prog, res, rule="R-LIN"):
         if not any("holds.pos" in w for w in writes):
             continue
         rec = {"pre": [], "back": [], "exit": []}
-        an = L.Analysis(prog, invariant=invariant,
+        an = _A(prog, invariant=invariant,
                         on_loop_pre=lambda f_, h_, s, hd=hd: rec["pre"].append(s.copy()) if (f_ is g and h_ == hd) else None,
                         on_backedge=lambda f_, h_, s, hd=hd: rec["back"].append(s.copy()) if (f_ is g and h_ == hd) else None)
         an.run(g, L.State())
